@@ -3,6 +3,7 @@ use petgraph::Direction;
 use petgraph::graph::NodeIndex;
 
 use crate::compiler::analyses::call_graph::borrow_checker::clone::get_clone_component_id;
+use crate::compiler::analyses::call_graph::borrow_checker::move_while_borrowed::captured_nodes;
 use crate::compiler::analyses::call_graph::borrow_checker::ownership_relationship::OwnershipRelationships;
 use crate::compiler::analyses::call_graph::core_graph::{InputParameterSource, RawCallGraph};
 use crate::compiler::analyses::call_graph::{
@@ -56,7 +57,9 @@ pub(super) fn complex_borrow_check(
         root_component_id,
     } = call_graph;
 
-    let mut ownership_relationships = OwnershipRelationships::compute(&call_graph);
+    let node2captured_nodes = captured_nodes(&call_graph, component_db, computation_db);
+    let mut ownership_relationships =
+        OwnershipRelationships::compute(&call_graph, &node2captured_nodes);
 
     #[derive(Clone, Copy, Debug, Eq, PartialEq)]
     /// Determine what we should do when the node that we are processing wants to consume by value
